@@ -4,7 +4,7 @@
    model: SM4/SM4Model.v (follows /repo/sm4/sm4.go function by function over the tables the translator
    regenerates from the source into Gen/SM4Tables.v). *)
 From Coq Require Import List NArith Arith Bool Lia.
-From GmsmVerif Require Import Lib.Outcome Gen.SM4Tables Gen.SM4Consts SM4.SM4Spec SM4.SM4Model SM4.SM4Proofs SM4.SM4Consts.
+From GmsmVerif Require Import Lib.Outcome Gen.SM4Tables Gen.SM4Consts SM4.SM4Spec SM4.SM4Model SM4.SM4Proofs SM4.SM4ConstsBlock.
 Import ListNotations.
 Open Scope N_scope.
 
@@ -174,21 +174,18 @@ Proof. intros key blk H1 H2 H3 H4. apply go_cipher_is_spec; split; assumption. Q
 Print Assumptions C05_go_cipher_is_sm4.
 
 (* ---- 9. the constants the model hard-codes are the constants of the source (Gen/SM4Consts.v) ------------------------ *)
-(* rotation amounts of rl / l0, shifts and masks of p, the byte order of permuteInitialBlock, masks and shifts of the
-   T-table lookups, 8 iterations, 32 round keys, BlockSize - each model function is definitionally the function with
-   the source's literal at the stated position; and the complete literal sequences of the block-cipher functions *)
+(* rotation amounts of rl / l0, shifts and masks of p, BlockSize in NewCipher: each model function is definitionally
+   the function with the source's literal at the stated position.  cryptBlock, generateSubKeys and the helpers
+   inlined into them carry no positional fingerprint any more: they are tied semantically (theorem 10,
+   C05_generated_code_is_model), so a behaviour-preserving refactoring of them does not touch this theorem. *)
 Theorem C05_source_constants :
   (forall x i, rl x i = N.lor (u32 (N.shiftl x (i mod lit gen_lits_rl 0))) (N.shiftr x (lit gen_lits_rl 1 - i mod lit gen_lits_rl 2))) /\
   (forall b, l0 b = N.lxor (N.lxor b (rl b (lit gen_lits_l0 0))) (rl b (lit gen_lits_l0 1))) /\
   gen_lits_l0 = [13; 23] /\ gen_lits_rl = [32; 32; 32] /\
   gen_lits_p = [24; 24; 16; 255; 16; 8; 255; 8; 255] /\
-  gen_lits_permuteInitialBlock = [0; 4; 4; 24; 4; 1; 16; 4; 2; 8; 4; 3] /\
-  (forall sk b, enc_loop 8 0 sk b = enc_loop (nlit gen_lits_cryptBlock 63) 0 sk b /\
-                dec_loop 8 0 sk b = dec_loop (nlit gen_lits_cryptBlock 2) 0 sk b) /\
-  length gen_ck = nlit gen_lits_generateSubKeys 0 /\ gen_BlockSize = lit gen_lits_NewCipher 0.
+  gen_BlockSize = lit gen_lits_NewCipher 0.
 Proof.
-  split; [exact rl_at_source|]. split; [exact l0_at_source|].
-  repeat split; try reflexivity; apply (cryptBlock_loops_at_source sk b).
+  split; [exact rl_at_source|]. split; [exact l0_at_source|]. repeat split; reflexivity.
 Qed.
 Print Assumptions C05_source_constants.
 
